@@ -125,6 +125,9 @@ fn walk_inner(xot: &Xot, live: &[Node], check_text_adjacency: bool) -> Option<Br
         if xot.parent(*n).is_none() {
             roots.push(*n);
         }
+        if let Some(what) = value_accessors_disagree(xot, *n) {
+            return broken("I9-value-accessors-agree", what);
+        }
     }
 
     // raw child lists per parent from all_descendants of every root
@@ -310,6 +313,146 @@ fn walk_inner(xot: &Xot, live: &[Node], check_text_adjacency: bool) -> Option<Br
                 }
             }
         }
+    }
+    None
+}
+
+/// "A node handle denotes the same node with the same value": every read accessor of a node's value - the kind
+/// predicates, the typed views, the string shorthands, the convenience accessors built on first_child - says the same as
+/// `value()` and the child list. Returns what disagrees.
+pub fn value_accessors_disagree(xot: &Xot, n: Node) -> Option<String> {
+    use xot::ValueType as VT;
+    let v = xot.value(n);
+    let vt = xot.value_type(n);
+    let flags = [
+        (xot.is_document(n), VT::Document, "is_document"),
+        (xot.is_element(n), VT::Element, "is_element"),
+        (xot.is_text(n), VT::Text, "is_text"),
+        (xot.is_comment(n), VT::Comment, "is_comment"),
+        (xot.is_processing_instruction(n), VT::ProcessingInstruction, "is_processing_instruction"),
+        (xot.is_attribute_node(n), VT::Attribute, "is_attribute_node"),
+        (xot.is_namespace_node(n), VT::Namespace, "is_namespace_node"),
+    ];
+    if v.value_type() != vt {
+        return Some(format!("value_type() = {:?} but value().value_type() = {:?}", vt, v.value_type()));
+    }
+    for (got, t, name) in flags {
+        if got != (vt == t) {
+            return Some(format!("{}() = {} on a node whose value_type is {:?}", name, got, vt));
+        }
+    }
+    let d = describe(xot, n);
+    match v {
+        Value::Text(t) => {
+            if xot.text_str(n) != Some(t.get()) || xot.text(n).map(|x| x.get()) != Some(t.get()) {
+                return Some(format!("text_str / text of {} differ from value()", d));
+            }
+        }
+        Value::Comment(c) => {
+            if xot.comment_str(n) != Some(c.get()) || xot.comment(n).map(|x| x.get()) != Some(c.get()) {
+                return Some(format!("comment_str / comment of {} differ from value()", d));
+            }
+        }
+        Value::Element(e) => {
+            if xot.get_element_name(n) != e.name() || xot.element(n).map(|x| x.name()) != Some(e.name()) || xot.node_name(n) != Some(e.name()) {
+                return Some(format!("get_element_name / element / node_name of {} differ from value()", d));
+            }
+            let decls = xot.namespace_declarations(n);
+            let via_view: Vec<(xot::PrefixId, xot::NamespaceId)> = xot.namespaces(n).iter().map(|(p, u)| (p, *u)).collect();
+            if decls != via_view {
+                return Some(format!("namespace_declarations of {} differs from namespaces().iter()", d));
+            }
+            let pf = xot.prefixes(n);
+            if pf.len() != via_view.len() || via_view.iter().any(|(p, u)| pf.get(p) != Some(u)) {
+                return Some(format!("prefixes of {} differs from namespaces().iter()", d));
+            }
+        }
+        Value::ProcessingInstruction(pi) => {
+            match xot.processing_instruction(n) {
+                Some(x) if x.target() == pi.target() && x.data() == pi.data() => {}
+                _ => return Some(format!("processing_instruction of {} differs from value()", d)),
+            }
+            if xot.node_name(n) != Some(pi.target()) {
+                return Some(format!("node_name of {} is not its target", d));
+            }
+        }
+        Value::Attribute(a) => {
+            match xot.attribute_node(n) {
+                Some(x) if x.name() == a.name() && x.value() == a.value() => {}
+                _ => return Some(format!("attribute_node of {} differs from value()", d)),
+            }
+        }
+        Value::Namespace(ns) => {
+            match xot.namespace_node(n) {
+                Some(x) if x.prefix() == ns.prefix() && x.namespace() == ns.namespace() => {}
+                _ => return Some(format!("namespace_node of {} differs from value()", d)),
+            }
+        }
+        Value::Document => {}
+    }
+    // names: elements, attributes and processing instructions have one, nothing else has
+    let named = matches!(vt, VT::Element | VT::Attribute | VT::ProcessingInstruction);
+    if xot.node_name(n).is_some() != named {
+        return Some(format!("node_name({}) is {}", d, if named { "None" } else { "Some" }));
+    }
+    if !named {
+        match xot.node_name_ref(n) {
+            Ok(None) => {}
+            _ => return Some(format!("node_name_ref({}) is not Ok(None)", d)),
+        }
+    }
+    // the typed views are None for every other kind
+    let typed = [
+        (xot.text(n).is_some(), VT::Text, "text"),
+        (xot.text_str(n).is_some(), VT::Text, "text_str"),
+        (xot.comment(n).is_some(), VT::Comment, "comment"),
+        (xot.comment_str(n).is_some(), VT::Comment, "comment_str"),
+        (xot.element(n).is_some(), VT::Element, "element"),
+        (xot.processing_instruction(n).is_some(), VT::ProcessingInstruction, "processing_instruction"),
+        (xot.attribute_node(n).is_some(), VT::Attribute, "attribute_node"),
+        (xot.namespace_node(n).is_some(), VT::Namespace, "namespace_node"),
+    ];
+    for (some, t, name) in typed {
+        if some != (vt == t) {
+            return Some(format!("{}() is {} on {}", name, if some { "Some" } else { "None" }, d));
+        }
+    }
+    // documents: document_element is the first element child, and validate_well_formed_document accepts exactly one
+    // element among comments and processing instructions; on any other node both refuse
+    {
+        let is_doc = vt == VT::Document;
+        let kids: Vec<Node> = snap::bounded(xot.children(n), 100_000).unwrap_or_else(|v| v);
+        let elems: Vec<Node> = kids.iter().copied().filter(|c| xot.value_type(*c) == VT::Element).collect();
+        let only_misc = kids.iter().all(|c| matches!(xot.value_type(*c), VT::Element | VT::Comment | VT::ProcessingInstruction));
+        let want_valid = is_doc && elems.len() == 1 && only_misc;
+        if xot.validate_well_formed_document(n).is_ok() != want_valid {
+            return Some(format!("validate_well_formed_document({}) is {}, the node has {} element children{}", d, if want_valid { "Err" } else { "Ok" }, elems.len(), if only_misc { "" } else { " and text at top level" }));
+        }
+        let want_de = if is_doc { elems.first().copied() } else { None };
+        if xot.document_element(n).ok() != want_de {
+            return Some(format!("document_element({}) is not the first element child / an error", d));
+        }
+    }
+    // position shorthands
+    let parent_is_doc = xot.parent(n).map_or(false, |p| xot.value_type(p) == VT::Document);
+    if xot.has_document_parent(n) != parent_is_doc {
+        return Some(format!("has_document_parent({}) = {}", d, xot.has_document_parent(n)));
+    }
+    if xot.is_document_element(n) != (parent_is_doc && vt == VT::Element) {
+        return Some(format!("is_document_element({}) = {}", d, xot.is_document_element(n)));
+    }
+    // text_content / text_content_str: defined through the ordinary children
+    let first = xot.first_child(n);
+    let only_text: Option<&str> = match first {
+        Some(c) if xot.next_sibling(c).is_none() => xot.text_str(c),
+        _ => None,
+    };
+    if xot.text_content(n).map(|t| t.get()) != only_text {
+        return Some(format!("text_content({}) = {:?}, the only child as text is {:?}", d, xot.text_content(n).map(|t| t.get()), only_text));
+    }
+    let want_str = if first.is_none() { Some("") } else { only_text };
+    if xot.text_content_str(n) != want_str {
+        return Some(format!("text_content_str({}) = {:?}, expected {:?}", d, xot.text_content_str(n), want_str));
     }
     None
 }
